@@ -47,22 +47,63 @@ def lengths(tier):
 _SHARED = {}
 
 
-def converse(rng, n, wd, idx):
+def _crc16(data, crc=0xFFFF):
+    for b in data:
+        crc ^= b
+        for _ in range(8):
+            crc = (crc >> 1) ^ 0xA001 if crc & 1 else crc >> 1
+    return crc
+
+
+def _crc_twin(img, rng):
+    """Another image of the same length whose 0xFF-padded CRC-16/MODBUS equals that of img (last two bytes solved for)."""
+    n = len(img)
+    pad = b"\xff" * (128 - n % 128)
+    target = _crc16(bytes(img) + pad)
+    body = bytearray(img)
+    for k in rng.sample(range(n - 2), min(5, n - 2)):
+        body[k] ^= 1 + rng.randrange(255)
+    state = _crc16(body[:n - 2])
+    tails = {}
+    for b1 in range(256):
+        s1 = _crc16(bytes([b1]), state)
+        for b2 in range(256):
+            if _crc16(bytes([b2]) + pad, s1) == target:
+                body[n - 2], body[n - 1] = b1, b2
+                return bytes(body) if bytes(body) != bytes(img) else None
+    return None
+
+
+def converse(rng, n, wd, idx, mode=None):
     import mysensors
     from mysensors.ota import load_fw
     # every third conversation re-uses the previous gateway AND firmware id: a new image under the same (type, version)
-    reuse = _SHARED.get("gw") is not None and idx % 3 != 0
-    retarget = reuse and idx % 3 == 2       # same gateway and nodes, ANOTHER firmware id: the earlier image stays loaded
+    if mode is None:
+        mode = ("fresh", "same-id", "retarget")[idx % 3]
+    reuse = _SHARED.get("gw") is not None and mode != "fresh"
+    retarget = reuse and mode == "retarget"  # same gateway and nodes, ANOTHER firmware id: the earlier image stays loaded
     img = bytes(rng.randrange(256) for _ in range(n)) if rng.random() < 0.8 else bytes([rng.choice([0, 255])]) * n
+    prev_img = _SHARED.get("last_img")
+    if reuse and mode == "twin" and prev_img is not None and len(prev_img) == n and n >= 4 and n % 128 != 0:
+        # the new image under the same id has the same length AND the same CRC-16 as the one it replaces (1 in 65536 by
+        # chance; constructed here): still every block served must be the NEW image's
+        twin = _crc_twin(prev_img, rng)
+        if twin is not None:
+            img = twin
     ft = rng.choice([0, 1, 10, 255, 256, 65535, rng.randrange(65536)])
     fv = rng.choice([0, 1, 2, 65535, rng.randrange(65536)])
     if reuse and not retarget:
         ft, fv = _SHARED["fw"]
     elif retarget and (ft, fv) == _SHARED["fw"]:
         fv = (fv + 1) % 65536
-    path = os.path.join(wd, f"img{idx}.hex")
+    # every fifth image is written over the SAME path as an earlier one and gets that file's old time stamp back (cp -p,
+    # rsync -t, a rebuild inside one time-stamp tick): what loads is what the file holds now
+    same_path = idx % 5 == 4
+    path = os.path.join(wd, "img_same.hex" if same_path else f"img{idx}.hex")
     start = rng.choice([0, 0, 0x100, 0x1000]) if n < 20000 else 0
     ihex.write(path, img, reclen=rng.choice([16, 32, 8, 255]), start=start)
+    if same_path:
+        os.utime(path, (1700000000, 1700000000))
     rec = {"img": list(img), "ft": ft, "fv": fv, "cfgs": [], "blks": [], "len": n, "hasloaded": False, "loaded": [],
            "err": "", "hasprev": False, "pimg": [], "pblocks": 0, "pblks": []}
     prev = _SHARED.get("last") if retarget else None
@@ -114,6 +155,7 @@ def converse(rng, n, wd, idx):
                 w, data = words(h[5], 3)
                 rec["blks"].append([ft, fv, bi, w[0], w[1], w[2], data])
             _SHARED["last"] = {"ft": ft, "fv": fv, "img": list(img), "blocks": blocks}
+            _SHARED["last_img"] = bytes(img)
             if prev is not None and (prev["ft"], prev["fv"]) != (ft, fv):
                 # late requests that still name the firmware the nodes were fetching before they were re-targeted: whatever is
                 # answered must be labelled with, and carry the data of, the firmware the request names
@@ -129,7 +171,7 @@ def converse(rng, n, wd, idx):
     except Exception as exc:  # pylint: disable=broad-except
         rec["err"] = f"exception {type(exc).__name__}: {exc}"
     finally:
-        if os.path.exists(path):
+        if os.path.exists(path) and not same_path:
             os.remove(path)
     return rec
 
@@ -145,6 +187,9 @@ def run(tier):
     rep.add_tlc("OtaMC", res)
     ls = lengths(tier)
     recs = [converse(rng, n, wd, i) for i, n in enumerate(ls)]
+    for n in ((5, 120, 200, 1000) if tier == "quick" else (4, 5, 17, 120, 127, 129, 200, 1000, 2047, 5000)):
+        recs.append(converse(rng, n, wd, len(recs), mode="fresh"))
+        recs.append(converse(rng, n, wd, len(recs), mode="twin"))
     nsh = common.ncpu()
     # balance shards by image size
     order = sorted(range(len(recs)), key=lambda i: -recs[i]["len"])
